@@ -255,8 +255,8 @@ FULL STATEMENT of C08 (kept visible; FALSE on the current tree, see F10 below):
 What is proved is the statement restricted to `QStatic` programs (`…_partial`): every instruction
 other than `set` reads Q registers only straight after a `set` of them, the shape the SDK emits for
 handles with constant ids. Outside `QStatic` the pass raises or picks the wrong circuit (F10,
-`f10_counterexample_*`). Not covered by `QStatic` either: the SDK's multi-pair EPR `mov R R`
-(operand values unknown to the pass; tied by correspondence and oracle only).
+`f10_counterexample_*`). `QStatic` includes the SDK's multi-pair EPR shape `set R4 0; mov R4 R3`
+(a `mov` out of a register just `set` to 0, target id computed at run time).
 
 Parameters: `M` an abstract instruction semantics with `SemLocal` (C04's obligations), and
 `ExpandSound` — THE C07 HYPOTHESIS "sem (expand g) = sem g": each emitted expansion acts on the
@@ -388,8 +388,12 @@ theorem transpile_simulates_final_partial {μ : Type} (M : Sem μ) (cfg : Cfg)
 every vanilla/NV gate instruction applies the operator its mnemonic denotes to the qubits its
 registers name (`QAction`, states up to global phase). The only facts about the quantum action are
 `QLawful` (exact operator identities on a few roles lift to the whole register under an injective
-assignment of qubits; a rotation depends only on its angle). `mov` has no semantics in `MQ`
-(it faults): see `mov_runtime_ids_*` below. -/
+assignment of qubits; a rotation depends only on its angle; a circuit whose exact operator satisfies
+C07's `isTransfer` is the transfer). `mov src tgt` is the PARTIAL state transfer of the property
+statement ("the same state transfer onto a freshly initialised target"): defined when the target is
+in |0⟩, between the electron and a carbon; the source — to be freed — is left in the state `movPhi`
+the device's move leaves it in (the published SWAP matrix is NOT used: it disagrees with every NV
+move circuit on the source). -/
 
 /-- **tie**: for both debug and both hardware settings, every template of Gen/NvExpand, read over
 roles, IS the sequence of Gen/NvDecomp for the same gate and placement (the sequences C07's
@@ -400,13 +404,17 @@ theorem templates_eq_nvdecomp : ∀ d h : Bool,
 /-- **expandSound_of_C07**: `ExpandSound` holds for the concrete semantics and the generated
 expansion table; the facts used are C07's `single_gates_eq`, `cnot_placements_eq`,
 `cphase_placements_eq` (with `electron_returned`: the carbon–carbon targets are gate ⊗ 1 on the
-borrowed electron), the tie above, and `QLawful`. -/
+borrowed electron), `mov_transfer` (both move circuits are transfers onto a |0⟩ target), the tie
+above, and `QLawful`. -/
 theorem expandSound_of_C07 {C Q : Type} (A : QAction Q) (hA : QLawful A) (Mc : Sem (C × Q)) (d h : Bool)
     (hMc : SemLocal Mc (Gen.cfg d h)) : ExpandSound (MQ A Mc) (Gen.cfg d h) :=
   Tr.expandSound_of_C07 A hA Mc _ hMc (all_ties_gen d h).1 (all_ties_gen d h).2
 
-/-- **transpile_simulates for the generated table, no gate hypothesis** (partial: `QStatic`;
-runs through a `mov` are not covered since `MQ` gives `mov` no semantics). -/
+/-- **transpile_simulates for the generated table, no gate hypothesis** (partial: `QStatic`),
+`mov` included: known ids in either direction (C07 `mov_transfer` for the electron→carbon and the
+carbon→electron circuit) and the SDK's run-time-id shape (electron→carbon circuit, source register
+known to hold 0). A vanilla run in which a `mov` meets a target that is not in |0⟩ has no step there
+(the transfer is undefined), so nothing is claimed about it. -/
 theorem transpile_simulates_C07_partial {C Q : Type} (A : QAction Q) (hA : QLawful A)
     (Mc : Sem (C × Q)) (d h : Bool) (hMc : SemLocal Mc (Gen.cfg d h))
     (S out : List Instr) (hQ : QStatic (Gen.cfg d h) S = true) (ht : transpile (Gen.cfg d h) S = .ok out)
@@ -421,7 +429,8 @@ theorem transpile_simulates_C07_partial {C Q : Type} (A : QAction Q) (hA : QLawf
 /-- `QLawful` is satisfiable (trivially, on a one-point state space; the intended instance is the
 unitary action on state vectors modulo phase) -/
 example : ∃ A : QAction Unit, QLawful A :=
-  ⟨⟨fun _ q => q⟩, ⟨fun _ _ _ _ _ _ _ _ _ => rfl, fun _ _ _ _ _ _ _ _ _ => rfl⟩⟩
+  ⟨⟨fun _ q => q, fun _ _ _ _ => none⟩,
+   ⟨fun _ _ _ _ _ _ _ _ _ => rfl, fun _ _ _ _ _ _ _ _ _ => rfl, fun _ _ _ _ _ _ _ _ _ _ h => by cases h⟩⟩
 
 /-- the generated configuration satisfies the side conditions on the padding instruction -/
 theorem pad_is_set : ∀ d h : Bool, lineOf (Gen.cfg d h) (Gen.cfg d h).pad = none ∧
@@ -547,8 +556,7 @@ emitted circuit is a transfer `reg0 → reg1` onto a |0⟩ target for ANY two di
 `mov_transfer`; confirmed by the state-vector oracle in both directions and by 480 NV-transpiled
 keep scenarios of the C10 harness), so the observation "NV-transpiled mov with run-time ids
 damages states" was F9 (nv `crot_y` published the X-axis matrix) and disappeared with its fix.
-`transpile_simulates_*` does not cover `mov` (published vanilla semantics is a SWAP, the NV
-circuits are a transfer: the states differ on the source qubit until it is freed). -/
+`transpile_simulates_C07_partial` covers `mov` with the transfer semantics (`MQ`, `movExec`). -/
 
 /-- for `mov`, whenever the pass lacks the value of one operand register it emits the
 electron→carbon template on `(reg0, reg1)` — independent of what the registers hold -/
@@ -563,6 +571,21 @@ theorem mov_unknown_emits_ec (cfg : Cfg) (info : ClsInfo) (htag : info.tag = "mo
   · rw [h]; simp [htag]
   · rw [h]
     cases rv.lookup ra <;> simp [htag]
+
+/-- the SDK's multi-pair shape (`sub`-computed target id, `set R4 0; mov R4 R3; qfree R4`) and a
+`mov` with known ids are inside `QStatic`; the first gets the electron→carbon circuit -/
+theorem mov_sdk_shape_in_qstatic :
+    let sdk : List Instr := [
+      ⟨"core.SetInstruction", [rreg 1, .imm 1]⟩, ⟨"core.SubInstruction", [rreg 3, rreg 1, rreg 0]⟩,
+      ⟨"core.SetInstruction", [rreg 4, .imm 0]⟩, ⟨"vanilla.MovInstruction", [rreg 4, rreg 3]⟩,
+      ⟨"core.QFreeInstruction", [rreg 4]⟩]
+    let known : List Instr := [
+      ⟨"core.SetInstruction", [qreg 0, .imm 2]⟩, ⟨"core.SetInstruction", [qreg 1, .imm 0]⟩,
+      ⟨"vanilla.MovInstruction", [qreg 0, qreg 1]⟩]
+    QStatic (Gen.cfg false false) sdk = true ∧ QStatic (Gen.cfg false false) known = true ∧
+    (transpile (Gen.cfg false false) sdk).toOption.map (·.length) = some 8 ∧
+    (transpile (Gen.cfg false false) known).toOption.map (·.length) = some 8 := by
+  decide +kernel
 
 /-- F10, non-Q operand registers: `set R0 0; set R1 1; cnot R0 R1` runs on the controller, the pass
 raises AssertionError (outside `QStatic`: two-qubit gates must name Q registers) -/
